@@ -18,9 +18,11 @@ use tree_sitter_graph::{CancellationError, CancellationFlag, ExecutionConfig, Ex
 /// needs, so a breach means the run no longer advances.
 pub const POLL_CAP: u64 = 2_000_000;
 
-/// Poll bound relative to a finished reference run: 64 polls per reference step, at least 100 000.
+/// Poll bound relative to a reference run: 64 polls per reference step, at least 2 000 000.  A
+/// breach is only meaningful when the reference run was complete (did not stop at an error):
+/// callers treat a breach next to a failing reference run as inconclusive.
 pub fn poll_cap_for(model_steps: u64) -> u64 {
-    (64 * model_steps).max(100_000)
+    (64 * model_steps).max(2_000_000)
 }
 
 pub struct CountingFlag {
